@@ -475,7 +475,7 @@ def execute_record(rec: dict, keep_events: bool = False):
 
 
 def worker_task(task: dict) -> dict:
-    isolate.worker_guard(3000)
+    isolate.worker_guard()
     vseed = task["vseed"]
     pool = runner.POOL
     if task["kind"] == "random":
@@ -487,7 +487,7 @@ def worker_task(task: dict) -> dict:
           "interleavings": set(), "nontrivial": set(), "sites": {}, "violations": [], "samples": [],
           "digests": [], "ops": 0, "policies": {}, "exc_outcomes": 0, "cold_country_race": 0}
     results = []
-    if runner.past(task.get("deadline")):
+    if runner.past(task.get("deadline")):  # consulted only *before* work starts: nothing that ran is ever discarded
         recs = []
         st["skipped"] = 1
     if task["kind"] == "sweep":
@@ -510,11 +510,15 @@ def worker_task(task: dict) -> dict:
             if viol is not None and "prelude" in rec:
                 break  # later runs of this batch ran on state the violating run may have disturbed
     else:
-        results = (execute_record(rec) for rec in recs)
+        def lazily():
+            for rec in recs:
+                if runner.past(task.get("deadline")):
+                    st["skipped"] = st.get("skipped", 0) + 1
+                    return
+                yield execute_record(rec)
+
+        results = lazily()
     for rec, res, viol in results:
-        if runner.past(task.get("deadline")):
-            st["skipped"] = st.get("skipped", 0) + 1
-            break
         st["runs"] += 1
         st["steps"] += res["steps"]
         st["switches"] += res["switches"]
@@ -922,7 +926,14 @@ def main() -> int:
     print(f"C14 {args.tier}: runs={agg['runs']} (sweep {agg['sweep_runs']}) interleavings={len(inter)} "
           f"nontrivial={len(nontriv)} steps={agg['steps']} switches={agg['switches']} violations_seen={vcount} "
           f"unlisted_classes={unlisted} wall={wall:.1f}s")
-    return core.EXIT_VIOLATION if unlisted else core.EXIT_OK
+    if unlisted:
+        return core.EXIT_VIOLATION
+    if agg["steps"] == 0 or agg["runs"] == 0:
+        raise core.HarnessError("no pre-emption point was passed: the package code is not instrumented (wrong SCHWIFTY_SRC?)")
+    if skipped:
+        raise core.HarnessError(f"incomplete exploration: the wall-clock safety cap cut {skipped} task(s) short; "
+                                f"a truncated run is never reported as a pass (raise VERIF_WALL_CAP or lower --runs)")
+    return core.EXIT_OK
 
 
 if __name__ == "__main__":
